@@ -96,6 +96,10 @@ def _part(e: ast.AST) -> str:
         return {0: "row", 1: "colstr"}.get(t.slice.value, f"group({t.slice.value + 1}) of the ID pattern")
     if isinstance(t, ast.Subscript) and is_name(t.value, "well") and isinstance(t.slice, ast.Constant) and t.slice.value == 0:
         return "row[first letter only]"
+    if isinstance(t, ast.Call) and isinstance(t.func, ast.Attribute) and t.func.attr in ("upper", "lower", "casefold", "title", "capitalize", "swapcase", "strip", "lstrip", "rstrip") and not t.args:
+        inner = _part(t.func.value)
+        if inner.startswith("row"):
+            return f"row[changed by .{t.func.attr}()]"
     return "?"
 
 
@@ -191,6 +195,10 @@ def formulas(ctx, rule: str = "C08.formula") -> None:
             elif any("first letter only" in p.names.get(s_, "") for s_ in unknown):
                 ctx.rep.refuted(rule, c, f"{pkg} {'trough' if trough else 'plate'} position `{p.pretty()[:100]}` looks the row up by the first character of the ID (`well[0]`) instead of its "
                                 "whole letter part: an ID with a multi-letter row that does not exist in the labware (e.g. 'AB01') is numbered like row A instead of being rejected", where=w, canon=p.pretty(), expected=text)
+            elif any("changed by" in p.names.get(s_, "") for s_ in unknown):
+                how = next(p.names.get(s_, "") for s_ in unknown if "changed by" in p.names.get(s_, ""))
+                ctx.rep.refuted(rule, c, f"{pkg} {'trough' if trough else 'plate'} position `{p.pretty()[:100]}` looks the row up after altering the letters of the ID ({how}): an ID that does not exist in "
+                                "the labware (e.g. 'a01') is numbered like an existing well instead of being rejected - and the other device still rejects it", where=w, canon=p.pretty(), expected=text)
             elif any("§" in p.names.get(s_, "") or "[?]" in p.names.get(s_, "") for s_ in unknown) and (not _poly_shape_known(p) or any("[?]" in p.names.get(s_, "") for s_ in unknown)):
                 ctx.rep.inconclusive(rule, c, f"position `{p.pretty()[:120]}` is outside the fragment (table lookup or unknown ID part)", where=w)
             else:
